@@ -794,6 +794,12 @@ func runCase(c Val) Val {
 					wc, hdr, _, err := wspExchange(ws, "WSP/1.1 INIT\r\nproto: rtsp\r\nhost: 127.0.0.1\r\nport: 554\r\nseq: 1\r\n\r\n")
 					if err == nil && wc == 200 && hdr["channel"] != "" {
 						cn = &conn{kind: 2, ws: ws, channel: hdr["channel"], local: ws.LocalAddr().String()}
+						// the server answers INIT first and only then creates the session (which draws the session
+						// id from the process-wide counter) and registers it.  Which ids later connections get, and
+						// whether an immediate JOIN finds the channel, would depend on that race; the property says
+						// nothing about it.  A wrapped OPTIONS is answered by the session itself: once the answer
+						// is here the session exists, has its id and is registered.
+						wspExchange(ws, fmt.Sprintf("WSP/1.1 WRAP\r\nchannel: %s\r\nseq: 2\r\n\r\nOPTIONS * RTSP/1.0\r\nCSeq: 0\r\n\r\n", cn.channel))
 					}
 					init = int64(wc)
 				}
